@@ -8,7 +8,8 @@ per token class:
   universe   one atom per keyword, per operator and per other token kind (read from the lexer's enums);
   state      (c, NC): c = "some path to here has consumed a token"; NC = the set of atoms t such that some path to here has
              consumed nothing while the current token is t (nothing consumed => the token is still the one at the start);
-  transfer   `consume()` -> (true, {}); a switch on the kind / keyword / operator of a `peek()` result sends each t in NC only
+  transfer   `consume()` -> (true, NC restricted to EndOfFile): at the end of the input the cursor keeps answering EndOfFile, so
+             consuming there is no progress and a loop has to leave on EndOfFile by a branch; a switch on the kind / keyword / operator of a `peek()` result sends each t in NC only
              along the edge t takes; `x == <constant token>` comparisons are evaluated per atom; booleans materialised from
              constants carry the state of their definition; a call of a production g moves t from NC to c if t is in the
              must-consume summary S(g) (specialised on a constant keyword / operator argument), keeps t in NC and sets c if g
@@ -51,6 +52,10 @@ class Progress:
                 self.atoms.append(('V', i))
         self.aidx = {a: i for i, a in enumerate(self.atoms)}
         self.n = len(self.atoms)
+        # `consume()` hands out the peeked token; at the end of the input the lexer keeps answering EndOfFile, so consuming
+        # there makes no progress: the EndOfFile atom never counts as consumed
+        eofv = [i for i, v in enumerate(self.tc.variants) if v.name == 'EndOfFile']
+        self.eof_bit = (1 << self.aidx[('V', eofv[0])]) if eofv and ('V', eofv[0]) in self.aidx else 0
         self.bodies = {b.id: b for b in prog.bodies.values()
                        if b.crate == 'samlang_parser' and '::source_parser::' in b.name + '::' and '::tests' not in b.name}
         self.consume = [b for b in self.bodies.values() if b.name.endswith("SourceParser::<'a>::consume")]
@@ -197,7 +202,7 @@ class Progress:
         c, nc = st
         cid, nm = callee(t)
         if cid == self.consume.id:
-            return (c or nc != 0, 0)
+            return (c or (nc & ~self.eof_bit) != 0, nc & self.eof_bit)
         if cid == self.peek.id:
             return st
         if cid in self.bodies:
@@ -370,7 +375,7 @@ class Progress:
         if key in self.summ:
             return self.summ[key]
         if g.id == self.consume.id:
-            self.summ[key] = (1 << self.n) - 1
+            self.summ[key] = ((1 << self.n) - 1) & ~self.eof_bit
             return self.summ[key]
         if g.id == self.peek.id or g.id not in self.may:
             self.summ[key] = 0
